@@ -66,10 +66,10 @@ class Gen:
         return dict(run=run, cfg=cfg, steps=st, tag='sender')
 
     # ---- C03/C05/C09: several senders in scaled real time (contention on the sequence mutex) ----
-    def senders_rt(self, run, nsenders=None, n=30, reconnect=False):
+    def senders_rt(self, run, nsenders=None, n=30, reconnect=False, group=False):
         rng = self.rng
         R, T = rng.choice([(20_000, 100_000), (15_000, 70_000)])
-        cfg = dict(R=R, T=T, H=BIGH, mode='real', q=1500, slack=12_000)
+        cfg = dict(R=R, T=T, H=BIGH, mode='real', q=1500, slack=12_000, group=group)
         k = nsenders or rng.choice([2, 2, 3, 4, 8])
         st = [S('connect'), S('reader', act='on')]
         for _ in range(n):
@@ -120,12 +120,49 @@ class Gen:
             elif c < 0.96 and not tcp:
                 # reconnect: the gateway gives up, the client reconnects cleanly
                 st += [S('flush', n=1), S('gwpolicy', s='nextchan', n=rng.choice([1, 2, 3])), S('gwgiveup'), S('flush', n=3)]
+            elif c < 0.98 and not tcp:
+                # a transient local write error hits the next acknowledgement; the gateway then repeats the telegram
+                pid = self.newpid()
+                st += [S('sockfail', act='once', svc='TunnelRes'), S('inject', svc='TunnelReq', ch='own', rel=0, p=pid), S('recv'),
+                       S('inject', svc='TunnelReq', ch='own', rel=-1, p=pid), S('recv')]
             else:
                 st.append(S('inject', svc='TunnelRes', ch='own', rel=0, st=0))
         if reader:
             st.append(S('reader', act='off'))
         st.append(S('drain'))
         return dict(run=run, cfg=cfg, steps=st, tag='receiver')
+
+    def ack_once(self, run):
+        """C03: an acknowledgement is consumed once. A Send is acknowledged, the gateway drops and re-establishes the connection
+        on the SAME channel at once, and the first Send of the new connection (same sequence number 0) loses all its traffic:
+        it must not succeed on anything left over from the earlier acknowledgement."""
+        rng = self.rng
+        R, T = rng.choice(CFGS_ST)
+        st = [S('connect')]
+        for _ in range(rng.choice([0, 0, 1, 2])):     # (sequence number 0, or a small one reached again after the reconnect)
+            st += clean_send(self.newpid())
+        k = len(st)
+        st += clean_send(self.newpid())
+        st += [S('gwpolicy', s='nextchan', n=1), S('gwgiveup'), S('flush', n=3)]
+        for _ in range((k - 1) // max(1, len(clean_send(0)))):
+            st += clean_send(self.newpid())
+        st += [S('send', g=1, p=self.newpid()), S('net', dir='c2g', svc='TunnelReq', i=0, act='lose'), S('adv', d=odd(rng, R // 2))]
+        st += [S('net', dir='c2g', svc='TunnelReq', i=0, act='lose'), S('adv', d=odd(rng, T)), S('flush', n=2), S('adv', d=odd(rng, T))]
+        return dict(run=run, cfg=dict(R=R, T=T, H=BIGH), steps=st, tag='ack-once')
+
+    def tele_across_reconnect(self, run):
+        """C05 (gateway -> client): telegrams before and after a reconnect the library performs by itself; every telegram the
+        gateway got acknowledged must have reached the application, on the new connection from number 0 on."""
+        rng = self.rng
+        R, T = rng.choice(CFGS_ST)
+        st = [S('connect'), S('reader', act='on')]
+        for _ in range(rng.choice([1, 1, 2, 3])):
+            st += clean_tele(self.newpid())
+        st += [S('gwpolicy', s='nextchan', n=rng.choice([1, 2, 9])), S('gwgiveup'), S('flush', n=3)]
+        for _ in range(rng.choice([2, 3])):
+            st += clean_tele(self.newpid())
+        st += [S('flush', n=2), S('reader', act='off'), S('drain')]
+        return dict(run=run, cfg=dict(R=R, T=T, H=BIGH), steps=st, tag='tele-across-reconnect')
 
     # ---- C05: both directions over the lossy link with the rule-following gateway
     def link(self, run, n=60, wrap=0):
@@ -168,6 +205,19 @@ class Gen:
         st += clean_send(self.newpid()) + clean_tele(self.newpid())
         st += [S('close', g=1), S('flush', n=1), S('adv', d=odd(rng, R)), S('census'), S('send', g=7, p=self.newpid()), S('recv'), S('census')]
         return dict(run=run, cfg=dict(R=R, T=T, H=BIGH), steps=st, tag='close-on-channel')
+
+    def close_after_disc_in_heartbeat_rt(self, run):
+        """C10, scaled real time (locks of the client are involved, which virtual time cannot advance through): the gateway
+        ends the connection while a heartbeat exchange is in flight, the client reconnects, then Close."""
+        rng = self.rng
+        R, T, H = 15_000, 60_000, 30_000
+        cfg = dict(R=R, T=T, H=H, mode='real', q=1500, slack=12_000)
+        st = [S('connect'), S('gwpolicy', s='hb', act='silent', st=0x21), S('adv', d=H + 6_000), S('flush', n=1),
+              S('gwpolicy', s='nextchan', n=2), S('gwgiveup'), S('flush', n=2), S('adv', d=rng.choice([2_000, R, R + 4_000])), S('flush', n=2)]
+        if rng.random() < 0.5:
+            st += [S('adv', d=H), S('flush', n=1)]
+        st += [S('close', g=1), S('flush', n=1), S('adv', d=800_000), S('census'), S('send', g=7, p=self.newpid()), S('recv'), S('census')]
+        return dict(run=run, cfg=cfg, steps=st, tag='close-after-disc-in-heartbeat-rt')
 
     def close_in_reconnect(self, run):
         """C10: Close lands while the client reconnects and the gateway answers every connect request 'busy'."""
